@@ -74,8 +74,59 @@ def _is_none(e) -> bool:
 
 
 # ------------------------------------------------------------------------------------------ AC1
+def _ac1_segment_lengths(fc: FnCls, R: RuleResult):
+    """AC1-L: autograd checks the *number* of gradients at run time, so every starred segment of backward's result must have the length of
+    the segment forward received on every path.  A definition tied to the input list (autograd.grad(.., inputs=L), a comprehension over L,
+    reconstruct_params) has it by construction; an *empty literal* default that a conditional definition overrides is right only if the
+    condition is exactly "the owner of the segment is present" (one `is not None` atom): with a further conjunct (`M is not None and E is not
+    None`) there is a path on which the owner is present, forward received its tensors, and backward returns none of them - autograd raises
+    "returned an incorrect number of gradients" for that combination of arguments."""
+    from ..flow import function_defs
+    from ..model import ancestors as _anc
+    bw = fc.backward
+    defs = function_defs(bw.node)
+    for r in own_returns(bw):
+        if not isinstance(r.value, ast.Tuple):
+            continue
+        for e in r.value.elts:
+            if not (isinstance(e, ast.Starred) and isinstance(e.value, ast.Name)):
+                continue
+            nm = e.value.id
+            ds = [d for d in defs.get(nm, []) if isinstance(d, ast.AST)]
+            empties = [d for d in ds if isinstance(d, (ast.List, ast.Tuple)) and not d.elts]
+            others = [d for d in ds if d not in empties]
+            if not empties:
+                R.ok(bw.fq, "*%s: every definition is tied to the length of the input segment" % nm)
+                continue
+            if not others:
+                R.bad(bw, r, "*%s is always empty although forward has a starred segment at this position" % nm)
+                continue
+            bad_atoms = None
+            for d in others:
+                atoms = []
+                node = d
+                for a in _anc(d):
+                    if a is bw.node:
+                        break
+                    if isinstance(a, ast.If) and any(node_ is x for x in ast.walk(ast.Module(body=a.body, type_ignores=[])) for node_ in [d]):
+                        t = a.test
+                        atoms.extend(t.values if isinstance(t, ast.BoolOp) and isinstance(t.op, ast.And) else [t])
+                single = len(atoms) == 1 and isinstance(atoms[0], ast.Compare) and len(atoms[0].ops) == 1 and isinstance(atoms[0].ops[0], ast.IsNot) \
+                    and isinstance(atoms[0].comparators[0], ast.Constant) and atoms[0].comparators[0].value is None
+                if not single:
+                    bad_atoms = atoms
+            if bad_atoms is None:
+                R.ok(bw.fq, "*%s: the empty default is overridden exactly when the owner of the segment is present" % nm)
+            else:
+                R.bad(bw, r, "*%s defaults to an empty list and is only filled under `%s`: on a path where the segment's owner is present but another conjunct fails, forward "
+                      "received that segment's tensors and backward returns none of them (autograd: \"returned an incorrect number of gradients\")"
+                      % (nm, " and ".join(ast.unparse(a_) for a_ in bad_atoms)))
+
+
 def ac1_arity(model: Model, fc: FnCls, R: RuleResult):
     nfix = len(fc.fixed)
+    if any(isinstance(e, ast.Starred) for r_ in own_returns(fc.backward) if isinstance(r_.value, ast.Tuple) for e in r_.value.elts):
+        _ac1_segment_lengths(fc, R)
     for r in own_returns(fc.backward):
         v = r.value
         if v is None:
